@@ -43,7 +43,17 @@ def one_line_range(draw):
     return ['range', a, b]
 
 
-range_leaf = st.one_of(st.tuples(label(), label()).map(lambda t: ['range', t[0], t[1]]), one_line_range())
+@st.composite
+def one_cell_range(draw):
+    col, row = draw(cols), draw(rows)
+
+    def sp():
+        c = col.lower() if draw(st.booleans()) else col
+        return ('$' if draw(st.booleans()) else '') + c + ('$' if draw(st.booleans()) else '') + str(row)
+    return ['range', sp(), sp()]
+
+
+range_leaf = st.one_of(st.tuples(label(), label()).map(lambda t: ['range', t[0], t[1]]), one_line_range(), st.tuples(label(), label()).map(lambda t: ['range', t[0], t[1]]), one_cell_range())
 var_leaf = st.sampled_from(['v_a', 'v_b', 'v_list', 'TRUE', 'FALSE', 'NULL', 'v_unreg', 'v_zero']).map(lambda n: ['var', n])
 num_leaf = st.sampled_from(['1', '2', '5']).map(lambda s: ['num', s])
 leaf = st.one_of(cell_leaf, cell_leaf, range_leaf, var_leaf, num_leaf)
